@@ -195,6 +195,9 @@ def menu(systag):
     ops.append(("gate.hs_from_choi_sparse", lambda P: qg.to_hs_from_choi_with_sparsity(P["c"], P["g"].to_choi_matrix_with_sparsity())))
     ops.append(("gate.kraus", lambda P: (P["g"].to_kraus_matrices(), P["g2"].to_process_matrix())))
     ops.append(("gate.bases", lambda P: (P["g"].convert_basis(P["c"].comp_basis()), P["g"].convert_to_comp_basis(), P["g"].convert_to_comp_basis("column_major"))))
+    # the two orderings of the computational basis requested separately (either may be the first request a system sees)
+    ops.append(("comp_basis:column_major", lambda P: ([R.dense(b) for b in P["c"].comp_basis(mode="column_major")], P["gu"].convert_to_comp_basis("column_major"))))
+    ops.append(("comp_basis:row_major", lambda P: ([R.dense(b) for b in P["c"].comp_basis()], P["gu"].convert_to_comp_basis(), P["s"].convert_basis(P["c"].comp_basis()))))
     ops.append(("gate.choi_var", lambda P: qg.to_choi_from_var(P["c"], P["g"].to_var(), True)))
     ops.append(("mprocess.choi", lambda P: (P["m"].to_choi_matrix(0), P["m3"].to_choi_matrix_with_dict(2), P["mu"].to_choi_matrix_with_sparsity(1))))
     ops.append(("mprocess.kraus_povm", lambda P: (P["m"].to_kraus_matrices(1), P["m3"].to_povm(), P["m"].to_process_matrix(0), P["m"].convert_to_comp_basis())))
@@ -354,6 +357,7 @@ def families(tier, seed):
             casesA.append({"sys": systag, "states": [list(s) for s in sts[i:i + chunk]]})
     fams.append(("cache_machine", casesA))
     fams.append(("immutability", [{"sys": s} for s in ("Q1", "Q3", "Q2")]))
+    fams.append(("array_operands", [{}]))
     depth = 3 if tier == "quick" else 4
     from mc.props import _c13_estimator as E
     fams.append(("estimator_machine", [{"first": i, "depth": depth} for i in range(len(E.menu()))]))
@@ -379,6 +383,8 @@ def execute(family, p, seed):
         return ex_reach(p, seed)
     if family == "immutability":
         return ex_immut(p, seed)
+    if family == "array_operands":
+        return ex_operands(p, seed)
     from mc.props import _c13_estimator as E
     return E.execute(p, seed)
 
@@ -580,5 +586,128 @@ def ex_immut(p, seed):
     src[1][0, 0] = 42.0
     if R.dense(mbs[1])[0, 0] == 42.0:
         out.fail("matrix_basis:aliases-constructor-argument", "MatrixBasis shares memory with the list it was built from")
+    out.outcome = "ok" if not out.fails else "fail"
+    return out
+
+
+# ================================================================== array-level operations: operands untouched, results repeatable
+
+def _dist_alphabet():
+    """probability vectors: interior, with exact zeros, with entries below / at / above the 1e-8 regularisation threshold"""
+    out = {}
+    for m in (2, 3, 4):
+        base = np.array([0.4, 0.3, 0.2, 0.1][:m], dtype=np.float64)
+        out["interior:m=%d" % m] = base / base.sum()
+        z = np.zeros(m)
+        z[0] = 1.0
+        out["one-outcome:m=%d" % m] = z
+        for eps_name, e in (("below-threshold", 3e-9), ("at-threshold", 1e-8), ("above-threshold", 2e-8)):
+            v = base / base.sum()
+            v = v.copy()
+            v[-1] = e
+            v[0] += 1.0 - v.sum()
+            out["%s:m=%d" % (eps_name, m)] = v
+        if m >= 3:
+            v = np.zeros(m)
+            v[0], v[1] = 0.75, 0.25
+            out["two-zero-free:m=%d" % m] = v
+    return out
+
+
+def ex_operands(p, seed):
+    """E1: every array-level routine of utils.matrix_util / math.* in the table x the operand alphabet; operands are
+    snapshotted bitwise before and compared after the call; the call is repeated and must return the same value."""
+    from quara.utils import matrix_util as mu
+    from quara.math import entropy, func_proj, matrix as qmat, norm, probability
+    out = Out()
+    dists = _dist_alphabet()
+    G = R.generic_matrix(3, seed, salt=2)
+    Hm = G + G.conj().T
+    Rm = np.real(R.generic_matrix(4, seed, salt=5)).copy()
+    rows = []       # (name, input class, function, operand builder -> list of arrays (positional), kwargs)
+
+    def add(name, icls, fn, build, **kw):
+        rows.append((name, icls, fn, build, kw))
+
+    for dn, q in dists.items():
+        m = len(q)
+        icls = dn.split(":")[0]
+        other = np.roll(dists["interior:m=%d" % m], 1).copy()
+        add("replace_prob_dist", icls, mu.replace_prob_dist, lambda q=q: [q.copy()])
+        add("replace_prob_dist(eps)", icls, lambda a: mu.replace_prob_dist(a, 1e-6), lambda q=q: [q.copy()])
+        add("calc_covariance_mat", icls, lambda a: mu.calc_covariance_mat(a, 50), lambda q=q: [q.copy()])
+        add("calc_covariance_mat_total", icls, lambda a, b: mu.calc_covariance_mat_total([(50, a), (20, b)]), lambda q=q, o=other: [q.copy(), o.copy()])
+        grad = np.real(R.generic_matrix(4, seed, salt=m)[:m, :3]).copy()
+        grad -= grad.mean(axis=0)
+        add("calc_fisher_matrix", icls, lambda a, g: mu.calc_fisher_matrix(a, list(g)), lambda q=q, g=grad: [q.copy(), g.copy()])
+        add("calc_fisher_matrix_total", icls, lambda a, b, g: mu.calc_fisher_matrix_total([a, b], [list(g), list(g)], [0.3, 0.7]),
+            lambda q=q, o=other, g=grad: [q.copy(), o.copy(), g.copy()])
+        add("calc_se", icls, lambda a, b: mu.calc_se([a, b], [b, a]), lambda q=q, o=other: [q.copy(), o.copy()])
+        add("calc_mse_prob_dists", icls, lambda a, b: mu.calc_mse_prob_dists([[a, b], [b, a]], [[b, b], [a, a]]), lambda q=q, o=other: [q.copy(), o.copy()])
+        add("validate_prob_dist", icls, lambda a: probability.validate_prob_dist(a), lambda q=q: [q.copy()])
+        add("round_varz_vector", icls, lambda a: entropy.round_varz_vector(a, 1e-10), lambda q=q: [q.copy()])
+        add("relative_entropy_vector", icls, lambda a, b: entropy.relative_entropy_vector(a, b), lambda q=q, o=other: [q.copy(), o.copy()])
+        add("relative_entropy_vector(swapped)", icls, lambda a, b: entropy.relative_entropy_vector(b, a), lambda q=q, o=other: [q.copy(), o.copy()])
+        add("gradient_relative_entropy_2nd_vector", icls, lambda a, b, g: entropy.gradient_relative_entropy_2nd_vector(a, b, g),
+            lambda q=q, o=other, g=grad: [q.copy(), o.copy(), g.copy()])
+        add("l2_norm", icls, lambda a, b: norm.l2_norm(a, b), lambda q=q, o=other: [q.copy(), o.copy()])
+        add("proj_to_nonnegative", icls, lambda a: func_proj.proj_to_nonnegative()(a), lambda q=q: [(q - 0.2).copy()])
+        add("proj_to_hyperplane", icls, lambda a, b: func_proj.proj_to_hyperplane(a)(b), lambda q=q, o=other: [q.copy(), o.copy()])
+        add("proj_to_self", icls, lambda a: func_proj.proj_to_self()(a), lambda q=q: [q.copy()])
+        add("multiply_veca_vecb", icls, lambda a, b: qmat.multiply_veca_vecb(a, b), lambda q=q, o=other: [q.copy(), o.copy()])
+    for mn, Mx in (("generic-complex", G), ("hermitian", Hm), ("tiny-imaginary", Hm.real + 1e-16j * G.imag), ("tiny-entries", Hm * 1e-15 + np.eye(3))):
+        add("truncate_imaginary_part", mn, lambda a: mu.truncate_imaginary_part(a, 1e-14), lambda Mx=Mx: [Mx.copy()])
+        add("truncate_computational_fluctuation", mn, lambda a: mu.truncate_computational_fluctuation(a, 1e-14), lambda Mx=Mx: [Mx.copy()])
+        add("truncate_hs", mn, lambda a: mu.truncate_hs(a, 1e-14, is_zero_imaginary_part_required=False), lambda Mx=Mx: [Mx.copy()])
+        add("truncate_and_normalize", mn, lambda a: mu.truncate_and_normalize(a, 1e-14), lambda Mx=Mx: [np.abs(Mx.real).copy()])
+        add("calc_direct_sum", mn, lambda a, b: mu.calc_direct_sum([a, b]), lambda Mx=Mx: [Mx.copy(), Mx.T.copy()])
+        add("calc_conjugate", mn, lambda a, b: mu.calc_conjugate(a, b), lambda Mx=Mx: [Mx.copy(), Mx.conj().copy()])
+        add("calc_left_inv", mn, lambda a: mu.calc_left_inv(a), lambda Mx=Mx: [(Mx + 3 * np.eye(3)).copy()])
+        add("partial_trace1", mn, lambda a: mu.partial_trace1(a, 2), lambda Mx=Mx: [np.kron(Mx[:2, :2], Mx[:2, :2]).copy()])
+        add("is_hermitian", mn, lambda a: mu.is_hermitian(a), lambda Mx=Mx: [Mx.copy()])
+        add("is_positive_semidefinite", mn, lambda a: mu.is_positive_semidefinite(a), lambda Mx=Mx: [Mx.copy()])
+        add("project_to_traceless_matrix", mn, lambda a: qmat.project_to_traceless_matrix(a), lambda Mx=Mx: [Mx.copy()])
+        add("convert_list_by_permutation_matrix", mn, lambda a, b: mu.convert_list_by_permutation_matrix([a, b, a + b], np.eye(3)[[2, 0, 1]]),
+            lambda Mx=Mx: [Mx.copy(), Mx.T.copy()])
+        add("multiply_veca_vecb_matc", mn, lambda a, b, c: qmat.multiply_veca_vecb_matc(a, b, c), lambda Mx=Mx: [Mx[0].real.copy(), Mx[1].real.copy(), Mx.real.copy()])
+
+    def same(a, b):
+        try:
+            if isinstance(a, (list, tuple)):
+                return len(a) == len(b) and all(same(x, y) for x, y in zip(a, b))
+            return np.array_equal(np.asarray(a), np.asarray(b), equal_nan=True)
+        except Exception:
+            return a == b
+
+    for name, icls, fn, build, kw in rows:
+        args = build()
+        snaps = [a.copy() for a in args]
+        with warnings.catch_warnings():
+            warnings.simplefilter("ignore")
+            ok, r1 = A.call(fn, *args)
+        out.ops += 1
+        out.count("operand_calls")
+        changed = [i for i, (a, s0) in enumerate(zip(args, snaps)) if a.shape != s0.shape or not np.array_equal(a, s0, equal_nan=True)]
+        if changed:
+            out.fail("array_operands:operand-modified:%s:%s" % (name, icls), "argument(s) %s changed by the call: %r -> %r" % (
+                changed, snaps[changed[0]].tolist(), args[changed[0]].tolist()))
+            continue
+        if not ok:
+            out.count("operand_call_raises")
+            continue
+        keep = copy.deepcopy(r1)
+        with warnings.catch_warnings():
+            warnings.simplefilter("ignore")
+            ok2, r2 = A.call(fn, *[s0.copy() for s0 in snaps])
+        out.ops += 1
+        out.traces += 1
+        if not ok2 or not same(r2, keep):
+            out.fail("array_operands:result-not-repeatable:%s:%s" % (name, icls), "second call with equal arguments: %s" % (A.fmt_exc(r2) if not ok2 else "different value"))
+        elif not same(r1, keep):
+            out.fail("array_operands:earlier-result-changed-by-later-call:%s:%s" % (name, icls), "the value returned first changed during the second call")
+        else:
+            out.count("operand_rows_ok")
+    out.states = len(rows)
+    inner(out, max(len(rows) - 1, 0))
     out.outcome = "ok" if not out.fails else "fail"
     return out
